@@ -1182,3 +1182,137 @@ Proof.
     exfalso. pose proof (find_none _ _ F ev Hin). congruence.
   - exact Fr.
 Qed.
+
+(* ================================================================ 7. C03 corollaries, rename, finite-map view *)
+
+(* the slot-level clauses of C03 for one directory: the independent decoder reports no issue (nothing after the end
+   marker; every long-name run complete, ordered, padded, checksummed against its short entry) *)
+Definition slots_wf (fat32 : bool) (ss : slots) : Prop := snd (dir_scan ss 0 [] fat32) = [].
+
+Lemma slots_wf_inv fat32 ss : slots_wf fat32 ss -> exists es ls, dir_scan ss 0 [] fat32 = (es, ls, []).
+Proof. unfold slots_wf. destruct (dir_scan ss 0 [] fat32) as [[es ls] iss]. cbn [snd]. intros ->. eauto. Qed.
+
+Theorem write_entry_keeps_wf k free fat32 ss n e range ss' :
+  slots_wf fat32 ss -> len_N ss < 134217728 -> sfn_live e ->
+  write_entry k free ss n e = (Ok range, ss') ->
+  slots_wf fat32 ss' /\ snd (fst (dir_scan ss' 0 [] fat32)) = snd (fst (dir_scan ss 0 [] fat32)).
+Proof.
+  intros Hw Hb He H. destruct (slots_wf_inv _ _ Hw) as [es [ls H0]]. destruct range as [p q].
+  destruct (write_entry_refines k free fat32 ss n e es ls p q ss' H0 Hb He H) as [es1 [es2 [ne [_ [E2 _]]]]].
+  unfold slots_wf. rewrite E2, H0. split; reflexivity.
+Qed.
+
+Theorem mark_deleted_keeps_wf fat32 ss e :
+  slots_wf fat32 ss -> In e (fst (fst (dir_scan ss 0 [] fat32))) ->
+  slots_wf fat32 (mark_deleted ss (e_first_slot e) (e_sfn_slot e + 1)) /\
+  snd (fst (dir_scan (mark_deleted ss (e_first_slot e) (e_sfn_slot e + 1)) 0 [] fat32)) = snd (fst (dir_scan ss 0 [] fat32)).
+Proof.
+  intros Hw Hin. destruct (slots_wf_inv _ _ Hw) as [es [ls H0]]. rewrite H0 in Hin. cbn [fst] in Hin.
+  destruct (mark_deleted_refines fat32 ss es ls e H0 Hin) as [es1 [es2 [_ [E2 _]]]]. cbn zeta in E2.
+  unfold slots_wf. rewrite E2, H0. split; reflexivity.
+Qed.
+
+(* rename at the slot layer with the code's order: the slots of the decoded entry [e] are deleted first, then the
+   new entry is written (possibly into the slots just freed); on success the decoding loses exactly e and gains
+   exactly the new entry *)
+Theorem rename_slots_refines k free fat32 ss n se es ls e p q ss' :
+  dir_scan ss 0 [] fat32 = (es, ls, []) -> len_N ss < 134217728 -> In e es -> sfn_live se ->
+  write_entry k free (mark_deleted ss (e_first_slot e) (e_sfn_slot e + 1)) n se = (Ok (p, q), ss') ->
+  exists a b c d ne,
+    es = a ++ e :: b /\ a ++ b = c ++ d /\ dir_scan ss' 0 [] fat32 = (c ++ ne :: d, ls, []) /\
+    e_lfn ne = (if is_dot_name n then [] else utf16_encode n) /\ e_lfn_ok ne = true /\ e_sfn ne = se_name se /\
+    e_attr ne = se_attrs se /\ e_size ne = se_size se /\
+    e_cluster ne = (if fat32 then se_first_cluster_hi se * 65536 else 0) + se_first_cluster_lo se /\
+    e_first_slot ne = p /\ e_sfn_slot ne + 1 = q.
+Proof.
+  intros H0 Hb Hin Hl W.
+  destruct (mark_deleted_refines fat32 ss es ls e H0 Hin) as [a [b [E1 [E2 [E3 _]]]]]. cbn zeta in *.
+  assert (len_N (mark_deleted ss (e_first_slot e) (e_sfn_slot e + 1)) < 134217728) as Hb' by (unfold len_N in *; rewrite E3; exact Hb).
+  destruct (write_entry_refines k free fat32 _ n se _ ls p q ss' E2 Hb' Hl W)
+    as [c [d [ne [F1 [F2 [F3 [F4 [F5 [F6 [_ [_ [_ [_ [_ [_ [_ [F14 [F15 [F16 [F17 _]]]]]]]]]]]]]]]]]]]].
+  exists a, b, c, d, ne. repeat (split; [assumption|]). assumption.
+Qed.
+
+(* ---------- (g) the decoding as a finite map keyed by the raw short name ---------- *)
+Definition dir_map (es : list entry) (key : list N) : option entry := find (fun e => list_eqb (e_sfn e) key) es.
+
+Lemma dir_map_app a b key : dir_map (a ++ b) key = match dir_map a key with Some e => Some e | None => dir_map b key end.
+Proof. unfold dir_map. induction a as [|x a IH]; cbn [app find]; [reflexivity|]. destruct (list_eqb (e_sfn x) key); [reflexivity|exact IH]. Qed.
+
+Lemma dir_map_none es key : ~ In key (map e_sfn es) -> dir_map es key = None.
+Proof.
+  unfold dir_map. induction es as [|x r IH]; intros H; cbn [find]; [reflexivity|].
+  destruct (list_eqb (e_sfn x) key) eqn:E; [apply list_eqb_eq in E; exfalso; apply H; left; exact E|].
+  apply IH. intros C. apply H. right. exact C.
+Qed.
+
+(* insertion anywhere in the list is map update, when the key is new *)
+Lemma dir_map_insert a b ne key : ~ In (e_sfn ne) (map e_sfn (a ++ b)) ->
+  dir_map (a ++ ne :: b) key = if list_eqb (e_sfn ne) key then Some ne else dir_map (a ++ b) key.
+Proof.
+  intros H. rewrite !dir_map_app. unfold dir_map at 2. cbn [find]. fold (dir_map b key).
+  destruct (list_eqb (e_sfn ne) key) eqn:E; [|reflexivity].
+  apply list_eqb_eq in E. subst key. rewrite dir_map_none; [reflexivity|].
+  intros C. apply H. rewrite map_app. apply in_or_app. left. exact C.
+Qed.
+
+(* removal anywhere in the list is map removal, when keys are unique *)
+Lemma dir_map_remove a b e key : NoDup (map e_sfn (a ++ e :: b)) ->
+  dir_map (a ++ b) key = if list_eqb (e_sfn e) key then None else dir_map (a ++ e :: b) key.
+Proof.
+  intros ND. rewrite !dir_map_app. unfold dir_map at 4. cbn [find]. fold (dir_map b key).
+  rewrite map_app in ND. cbn [map] in ND. apply NoDup_remove_2 in ND.
+  destruct (list_eqb (e_sfn e) key) eqn:E; [|reflexivity].
+  apply list_eqb_eq in E. subst key.
+  rewrite (dir_map_none a), (dir_map_none b); [reflexivity| |]; intros C; apply ND; apply in_or_app; [right|left]; exact C.
+Qed.
+
+(* (g) create commutes with the finite-map view: the new directory maps the alias to the new entry and every other
+   key as before (all other entries are unchanged records, including their slot positions) *)
+Theorem create_refines_map upper oem fat32 k free ss n attrs cl now wd es ls range ss' :
+  dir_scan ss 0 [] fat32 = (es, ls, []) -> len_N ss < 134217728 ->
+  attrs < 64 -> N.land attrs 8 = 0 -> TimeProofs.datetime_valid now = true ->
+  create_entry upper oem fat32 k free ss n attrs cl now wd = (Ok (Some range), ss') ->
+  exists es' ne, dir_scan ss' 0 [] fat32 = (es', ls, []) /\
+    e_lfn ne = (if is_dot_name n then [] else utf16_encode n) /\ dir_map es (e_sfn ne) = None /\
+    forall key, dir_map es' key = if list_eqb (e_sfn ne) key then Some ne else dir_map es key.
+Proof.
+  intros H0 Hb Ha Hv Hn H.
+  destruct (create_entry_refines upper oem fat32 k free ss n attrs cl now wd es ls range ss' H0 Hb Ha Hv Hn H)
+    as [es1 [es2 [ne [E1 [E2 [E3 [_ [_ [_ [_ [E8 _]]]]]]]]]]].
+  exists (es1 ++ ne :: es2), ne. split; [exact E2|]. split; [exact E3|]. split; [apply dir_map_none; exact E8|].
+  intros key. rewrite E1 in *. apply dir_map_insert. exact E8.
+Qed.
+
+(* (g) remove commutes with the finite-map view (keys unique, i.e. no WDupShort) *)
+Theorem remove_refines_map fat32 ss es ls e :
+  dir_scan ss 0 [] fat32 = (es, ls, []) -> In e es -> NoDup (map e_sfn es) ->
+  exists es', dir_scan (mark_deleted ss (e_first_slot e) (e_sfn_slot e + 1)) 0 [] fat32 = (es', ls, []) /\
+    forall key, dir_map es' key = if list_eqb (e_sfn e) key then None else dir_map es key.
+Proof.
+  intros H0 Hin ND. destruct (mark_deleted_refines fat32 ss es ls e H0 Hin) as [a [b [E1 [E2 _]]]]. cbn zeta in E2.
+  exists (a ++ b). split; [exact E2|]. intros key. rewrite E1 in *. apply dir_map_remove. exact ND.
+Qed.
+
+(* (g) rename in place = remove the old key, then add the new one (new key not among the remaining ones) *)
+Theorem rename_refines_map k free fat32 ss n se es ls e p q ss' :
+  dir_scan ss 0 [] fat32 = (es, ls, []) -> len_N ss < 134217728 -> In e es -> NoDup (map e_sfn es) -> sfn_live se ->
+  (forall x, In x es -> x <> e -> e_sfn x <> se_name se) ->
+  write_entry k free (mark_deleted ss (e_first_slot e) (e_sfn_slot e + 1)) n se = (Ok (p, q), ss') ->
+  exists es' ne, dir_scan ss' 0 [] fat32 = (es', ls, []) /\ e_sfn ne = se_name se /\
+    e_lfn ne = (if is_dot_name n then [] else utf16_encode n) /\
+    forall key, dir_map es' key =
+      if list_eqb (se_name se) key then Some ne else if list_eqb (e_sfn e) key then None else dir_map es key.
+Proof.
+  intros H0 Hb Hin ND Hl Hnew W.
+  destruct (rename_slots_refines k free fat32 ss n se es ls e p q ss' H0 Hb Hin Hl W)
+    as [a [b [c [d [ne [E1 [E2 [E3 [E4 [_ [E6 _]]]]]]]]]]].
+  exists (c ++ ne :: d), ne. split; [exact E3|]. split; [exact E6|]. split; [exact E4|].
+  intros key. rewrite E1 in *.
+  assert (~ In (e_sfn ne) (map e_sfn (c ++ d))) as Hfresh.
+  { rewrite <- E2, E6. intros C. apply in_map_iff in C. destruct C as [x [X1 X2]].
+    assert (In x (a ++ e :: b)) as Hx by (apply in_app_or in X2; apply in_or_app; destruct X2; [left|right; right]; assumption).
+    apply (Hnew x Hx); [|exact X1]. intros ->.
+    rewrite map_app in ND. cbn [map] in ND. apply NoDup_remove_2 in ND. apply ND. rewrite <- map_app. apply in_map. exact X2. }
+  rewrite dir_map_insert by exact Hfresh. rewrite E6, <- E2. rewrite (dir_map_remove a b e key ND). reflexivity.
+Qed.
